@@ -183,7 +183,7 @@ func c05GenRROps(rt *rapid.T, label string, n int, ports [2]int, rec *ev.Rec) []
 		case k < 68:
 			op = c05RROp{K: "avail", Idx: rapid.IntRange(0, 5).Draw(rt, l+"-idx"), On: rapid.IntRange(0, 2).Draw(rt, l+"-on") == 0}
 		case k < 80:
-			op = c05RROp{K: "update", Conf: c05GenSub(rt, l, ports, rapid.IntRange(0, 9).Draw(rt, l+"-ens") > 0)}
+			op = c05RROp{K: "update", Conf: c05GenSub(rt, l, ports, rapid.IntRange(0, 9).Draw(rt, l+"-keepbad") < 9)}
 			loaded, err := loadSub(op.Conf)
 			if err != nil {
 				op.reject = true
@@ -1017,7 +1017,7 @@ func c05Report(rt *rapid.T, rec *ev.Rec, f *c05Failure, witness any) bool {
 }
 
 func c05CaseRRSeq(rt *rapid.T, rec *ev.Rec, env *c05Env) {
-	init := c05GenSub(rt, "init", env.ports, rapid.IntRange(0, 9).Draw(rt, "init-ens") > 0)
+	init := c05GenSub(rt, "init", env.ports, rapid.IntRange(0, 9).Draw(rt, "init-keepbad") < 9)
 	loaded, err := loadSub(init)
 	nops := rapid.IntRange(1, 30).Draw(rt, "nops")
 	ops := c05GenRROps(rt, "rr", nops, env.ports, rec)
